@@ -166,3 +166,86 @@ Definition pat (v : Z) : buf16 := (v mod 256, v / 256).
 Definition run_for (l : list ((Z * Z) * (Z * Z))) : list Z :=
   flat_map (fun p => enc_rstep (for_step (pat (fst (fst p))) (pat (snd (fst p))) (pat (fst (snd p)))
                                          (snd (snd p)))) l.
+
+(* ---------- which FOR record a NEXT iterates (interpreter.iterate_loop, hand model) ----------
+   for_stack is a Python list, newest record last.  Every execution of a FOR statement appends a record
+   (variable, stop, step, sgn, forpos, nextpos); a loop left with GOTO leaves its record behind.  NEXT at code
+   position `pos` takes the NEWEST record whose nextpos is pos (searching from the top), drops the records
+   above it, adds THAT record's step to its variable and tests THAT record's limit; the record is popped when the
+   loop ends.  `vname` is the variable named after NEXT (None for a bare NEXT); a mismatch is NEXT without FOR.
+   Here the stack is kept newest first. *)
+Record frec : Type := mk_frec { f_var : Z; f_stop : buf16; f_step : buf16; f_sgn : Z; f_nextpos : Z }.
+
+Definition next_without_for : Z := 1.
+
+Fixpoint find_rec (pos : Z) (st : list frec) : option (frec * list frec) :=
+  match st with
+  | [] => None
+  | r :: below => if f_nextpos r =? pos then Some (r, below) else find_rec pos below
+  end.
+
+(* result: remaining stack (newest first), variable updated, its new value, whether the loop ended *)
+Definition next_step (st : list frec) (pos : Z) (vname : option Z) (get : Z -> buf16)
+  : res (list frec * (Z * buf16) * bool) :=
+  match find_rec pos st with
+  | None => Err next_without_for
+  | Some (r, below) =>
+      if match vname with Some v => negb (v =? f_var r) | None => false end then Err next_without_for
+      else bind (for_step (get (f_var r)) (f_step r) (f_stop r) (f_sgn r)) (fun ce =>
+             Ok (if snd ce then below else r :: below, (f_var r, fst ce), snd ce))
+  end.
+
+(* harness: records in Python order (oldest first) as (((var, stop), (step, sgn)), nextpos); two variables 0 / 1
+   with counters c0 / c1 (patterns); vname -1 = bare NEXT *)
+Definition mk_rec (t : ((Z * Z) * (Z * Z)) * Z) : frec :=
+  mk_frec (fst (fst (fst t))) (pat (snd (fst (fst t)))) (pat (fst (snd (fst t)))) (snd (snd (fst t))) (snd t).
+Definition run_next (recs : list (((Z * Z) * (Z * Z)) * Z)) (pos vname c0 c1 : Z) : list Z :=
+  let st := rev (map mk_rec recs) in
+  let get := fun v => if v =? 0 then pat c0 else pat c1 in
+  match next_step st pos (if vname <? 0 then None else Some vname) get with
+  | Ok (st', (v, c), e) => [0; v; fst c; snd c; enc_bool e; zlen st']
+  | Err e => [1; e]
+  | Host x => [2; x mod 256]
+  | OutOfFuel => [3]
+  end.
+Definition run_nexts (l : list ((list (((Z * Z) * (Z * Z)) * Z) * (Z * Z)) * (Z * Z))) : list Z :=
+  flat_map (fun p => run_next (fst (fst p)) (fst (snd (fst p))) (snd (snd (fst p))) (fst (snd p)) (snd (snd p))) l.
+
+(* ---------- a re-entered FOR loop through a BASIC program (harness/C02.py FORHIST) ----------
+   The FOR statement at line 40 (NEXT at line 60) is executed once per entry (a, b, s, q) read from DATA; every
+   entry but the last is left with GOTO after q passes (its record stays on the stack), the last one runs, printing
+   the counter, until it ends (E), overflows (X) or has printed 6 values (M).  Mirrors the control flow of that
+   program on top of next_step with the real stack discipline. *)
+Inductive hres : Type := HLeave (st : list frec) | HDone (out : list Z).
+
+Fixpoint hist_loop (fuel : nat) (st : list frec) (i : buf16) (p q m : Z) (last : bool) (acc : list Z) : hres :=
+  match fuel with
+  | O => HDone (acc ++ [1000009])
+  | S fuel' =>
+      let p' := if last then p else p + 1 in
+      if negb last && (p' >? q) then HLeave st
+      else
+        let acc' := if last then acc ++ [dec i] else acc in
+        let m' := if last then m + 1 else m in
+        if last && (m' >=? 6) then HDone (acc' ++ [1000001])
+        else match next_step st 60 None (fun _ => i) with
+             | Ok (st', (_, c), e) =>
+                 if e then HDone (acc' ++ [1000002; dec c]) else hist_loop fuel' st' c p' q m' last acc'
+             | Err e => HDone (acc' ++ [1000003; e; dec i])
+             | _ => HDone (acc' ++ [1000008])
+             end
+  end.
+
+Fixpoint hist_prog (entries : list ((Z * Z) * (Z * Z))) (st : list frec) : list Z :=
+  match entries with
+  | [] => [1000007]
+  | e :: rest =>
+      let r := mk_frec 0 (enc (snd (fst e))) (enc (fst (snd e))) (Z.sgn (fst (snd e))) 60 in
+      match hist_loop 100 (r :: st) (enc (fst (fst e))) 0 (snd (snd e)) 0
+                      (match rest with [] => true | _ => false end) [] with
+      | HLeave st' => hist_prog rest st'
+      | HDone out => out
+      end
+  end.
+Definition run_hists (l : list (list ((Z * Z) * (Z * Z)))) : list Z :=
+  flat_map (fun es => hist_prog es [] ++ [1000000]) l.
